@@ -749,3 +749,215 @@ def run(rep, tier):   # noqa: F811
     rep.cov["functions_encoded"].append("parser.read_3d_structure / parse_cif (one path name, two contents)")
     rep.cov["stubs"].append("IoAdapterPy.readFile(name) -> the content currently stored under that name (changes between the two reads)")
     rep.cov["bounds"]["reread"] = "mmCIF file of one atom_site row, chain (1-2 chars) and residue number (-999..999) symbolic in both contents"
+
+
+# ======================================================================================================
+# extension 4: library functions that go through temporary files (written mmCIF text, transformer) under the symbolic environment
+# ======================================================================================================
+class SymTmpEnv:
+    """tempfile / IoAdapterPy / os.remove stand-ins sharing one registry: every temporary file is an in-memory buffer whose name is a
+    symbolic string; the adapter reads and writes the buffer registered under a name (contract: the name is only a handle)"""
+
+    def __init__(self, eng, alphabet=ENV_ALPHABET):
+        import io, os, tempfile, types
+        from symx import bstr as B
+        self.eng, self.B, self.io, self.os, self.tempfile = eng, B, io, os, tempfile
+        self.registry = {}
+        self.count = 0
+        self.syms = []
+        env = self
+
+        class FakeTmp(io.StringIO):
+            def __init__(self, suffix):
+                super().__init__()
+                k = env.count
+                env.count += 1
+                while len(env.syms) <= k:
+                    env.syms.append(B.bvar(eng, f"tmpname{len(env.syms)}", 3, minlen=3, charset=alphabet))
+                self.name = B.BStr.const(eng, "/tmp/tmp") + env.syms[k] + B.BStr.const(eng, "q0x1z" + (suffix or ""))
+                env.registry[id(self.name)] = self
+
+            def close(self):
+                pass                      # the buffer stays readable for the adapter after a `with` block (delete=False usage)
+
+        self.FakeTmp = FakeTmp
+        self.tempfile_ns = types.SimpleNamespace(NamedTemporaryFile=lambda mode="w", suffix=None, **k: FakeTmp(suffix))
+
+        class OsShim:
+            path = os.path
+
+            def __getattr__(self, k):
+                return getattr(os, k)
+
+            def remove(self, name):
+                if id(name) in env.registry:
+                    del env.registry[id(name)]
+                    return None
+                return os.remove(name)
+        self.os_ns = OsShim()
+
+    def adapter_class(self, real_adapter):
+        env = self
+
+        class Adapter:
+            def readFile(self, name, *a, **k):
+                f = env.registry.get(id(name))
+                if f is None:
+                    return real_adapter().readFile(name, *a, **k)
+                with env.tempfile.NamedTemporaryFile("wt", suffix=".cif", delete=False) as t:
+                    t.write(f.getvalue())
+                try:
+                    return real_adapter().readFile(t.name, *a, **k)
+                finally:
+                    env.os.unlink(t.name)
+
+            def writeFile(self, name, containers, *a, **k):
+                f = env.registry.get(id(name))
+                if f is None:
+                    return real_adapter().writeFile(name, containers, *a, **k)
+                with env.tempfile.NamedTemporaryFile("wt", suffix=".cif", delete=False) as t:
+                    pass
+                try:
+                    ok = real_adapter().writeFile(t.name, containers, *a, **k)
+                    f.seek(0)
+                    f.truncate()
+                    f.write(open(t.name).read())
+                    f.seek(0)
+                    return ok
+                finally:
+                    env.os.unlink(t.name)
+        return Adapter
+
+    def install(self, modules):
+        self.saved = []
+        for m in modules:
+            for attr, val in (("tempfile", self.tempfile_ns), ("os", self.os_ns)):
+                if attr in vars(m):
+                    self.saved.append((m, attr, vars(m)[attr]))
+                    setattr(m, attr, val)
+            if "IoAdapterPy" in vars(m):
+                self.saved.append((m, "IoAdapterPy", m.IoAdapterPy))
+                m.IoAdapterPy = self.adapter_class(m.IoAdapterPy)
+
+    def uninstall(self):
+        for m, attr, val in reversed(self.saved):
+            setattr(m, attr, val)
+
+    def reset(self):
+        self.count = 0
+        self.registry.clear()
+
+
+ENV2_KINDS = ["write_cif", "write_cif_from_pdb", "copy_from_to", "replace_value"]
+
+
+def job_env2(kind):
+    """library functions that return written mmCIF text, with every temporary-file name symbolic"""
+    import sys
+    sys.path.insert(0, "/verif")
+    import os, time, logging, warnings
+    import z3
+    from symx.engine import Engine
+    from symx import bstr as B
+    from vlib.core import REPO_SRC
+    import rnapolis.parser_v2 as P2
+    import rnapolis.transformer as TR
+    logging.disable(logging.CRITICAL)
+    warnings.filterwarnings("ignore")
+    eng = Engine(timeout_ms=10000)
+    eng.realize_on_str = True
+    env = SymTmpEnv(eng)
+    root = os.path.dirname(REPO_SRC)
+    cif_text = open(os.path.join(root, "tests/184D.cif")).read()
+    pdb_text = open(os.path.join(root, "tests/488d.pdb")).read()
+    env.install([P2, TR])
+    t0 = time.time()
+    try:
+        def run():
+            env.reset()
+            if kind == "write_cif":
+                df = P2.parse_cif_atoms(cif_text)
+                return [P2.write_cif(df), df.to_csv()]
+            if kind == "write_cif_from_pdb":
+                import io
+                df = P2.parse_pdb_atoms(io.StringIO(pdb_text))
+                text = P2.write_cif(df)
+                return [text, P2.parse_cif_atoms(text).to_csv()]
+            if kind == "copy_from_to":
+                return [TR.copy_from_to(cif_text, "atom_site", "label_asym_id", "auth_asym_id")]
+            text, mapping = TR.replace_value(cif_text, "atom_site", "auth_asym_id")
+            return [text, sorted(mapping.items())]
+        paths = eng.explore(run, maxpaths=800)
+    finally:
+        env.uninstall()
+    res = {"name": f"library:{kind}", "paths": len(paths), "exhausted": eng.exhausted, "queries": eng.nq, "solver_s": round(eng.tq, 3), "realized": getattr(eng, "realized", 0),
+           "wall_s": round(time.time() - t0, 1), "differs": None, "exception": None, "tmpfiles": len(env.syms), "size": 0}
+    outs = []
+    for path, out in paths:
+        if isinstance(out, Exception):
+            res["exception"] = f"{type(out).__name__}: {out}"
+            continue
+        res["size"] = sum(len(str(x)) for x in out)
+        outs.append(out)
+    for ob in outs[1:]:
+        if ob != outs[0]:
+            res["differs"] = True
+            break
+    return res
+
+
+REPLAY_ENV2 = '''
+import subprocess
+code = """
+import sys, os, io, warnings, logging
+warnings.filterwarnings("ignore"); logging.disable(logging.CRITICAL)
+import rnapolis.parser_v2 as P2, rnapolis.transformer as TR
+root = os.path.join(os.environ.get("VERIF_REPO_SRC", "/repo/src"), "..")
+cif_text = open(os.path.join(root, "tests/184D.cif")).read(); pdb_text = open(os.path.join(root, "tests/488d.pdb")).read()
+kind = sys.argv[1]
+if kind == "write_cif":
+    df = P2.parse_cif_atoms(cif_text); out = [P2.write_cif(df), df.to_csv()]
+elif kind == "write_cif_from_pdb":
+    df = P2.parse_pdb_atoms(io.StringIO(pdb_text)); text = P2.write_cif(df); out = [text, P2.parse_cif_atoms(text).to_csv()]
+elif kind == "copy_from_to":
+    out = [TR.copy_from_to(cif_text, "atom_site", "label_asym_id", "auth_asym_id")]
+else:
+    text, mapping = TR.replace_value(cif_text, "atom_site", "auth_asym_id"); out = [text, sorted(mapping.items())]
+print(repr(out))
+"""
+env = dict(os.environ); env["PYTHONPATH"] = os.environ.get("VERIF_REPO_SRC", "/repo/src")
+outs = []
+for k in range(3):
+    e = dict(env); e["TMPDIR"] = "/tmp" if k == 0 else __import__("tempfile").mkdtemp(prefix="verif_env_%d_" % k)
+    outs.append(subprocess.run([sys.executable, "-c", code, {kind!r}], capture_output=True, text=True, env=e).stdout)
+print("distinct outputs over three runs with different temporary directories / names:", len(set(outs)))
+sys.exit(1 if len(set(outs)) > 1 else 0)
+'''
+
+_run_prev3 = run
+
+
+def run(rep, tier):   # noqa: F811
+    from vlib.core import Violation
+    from vlib.par import pmap, Crashed
+    _run_prev3(rep, tier)
+    kinds = ENV2_KINDS if tier != "quick" else ["write_cif", "replace_value"]
+    for kind, r in zip(kinds, pmap(job_env2, kinds)):
+        if isinstance(r, Crashed):
+            rep.harness_error(f"environment job {kind} crashed: {r.why}")
+            continue
+        rep.add(states=r["paths"], transitions=max(r["queries"], 1), solver_s=r["solver_s"], obligations=1)
+        rep.sample({"group": r["name"], "paths": r["paths"], "temporary_files": r["tmpfiles"], "name_realised": r["realized"], "output_chars": r["size"], "wall_s": r["wall_s"]}, cap=18)
+        if r["exception"] or not r["paths"] or r["size"] < 1000 or r["tmpfiles"] < 1:
+            rep.harness_error(f"{r['name']}: {r['exception'] or 'no output / no temporary file seen'}")
+            continue
+        if r["differs"]:
+            rep.add(discharged=1)
+            rep.violation(Violation(f"{r['name']}:environment", f"{r['name']}: the returned text depends on the name of a temporary file", REPLAY_ENV2.format(kind=kind), witness=kind))
+        elif r["exhausted"]:
+            rep.add(discharged=1, reachability_witnesses=1)
+        else:
+            rep.add(undecided=1)
+    rep.cov["functions_encoded"].append("parser_v2.parse_cif_atoms / write_cif, transformer.copy_from_to / replace_value with symbolic temporary-file names")
+    rep.cov["stubs"].append("tempfile / IoAdapterPy / os.remove in parser_v2 and transformer share a registry of in-memory files with symbolic names")
+    rep.cov["bounds"]["environment (library)"] = "tests/184D.cif and tests/488d.pdb through write_cif / copy_from_to / replace_value; every temporary-file name symbolic in 3 characters"
